@@ -19,7 +19,7 @@ def R(name, root, **kw):
 def jobs_R():
     J = []
     for f in ('addition', 'subtraction', 'multiplication', 'division', 'additionAssign', 'subtractionAssign', 'multiplicationAssign', 'divisionAssign'):
-        J.append(R(f, 'opensmt::' + f, proves='UB-freedom, typestate of the GMP path, frame, operands unchanged, canonical word representation, exact value on the integer-denominator paths'))
+        J.append(R(f, 'opensmt::' + f, weight=10, proves='UB-freedom, typestate of the GMP path, frame, operands unchanged, canonical word representation, exact value on the integer-denominator paths'))
     for f, c in (('operator_neg', 'FastRational__op_minus__void'), ('inverse', 'FastRational__inverse'), ('ceil', 'FastRational__ceil'), ('floor', 'FastRational__floor'),
                  ('get_num', 'FastRational__get_num'), ('get_den', 'FastRational__get_den'), ('negate', 'FastRational__negate'), ('sign', 'FastRational__sign'),
                  ('isInteger', 'FastRational__isInteger'), ('isZero', 'FastRational__isZero'), ('isOne', 'FastRational__isOne'),
@@ -110,7 +110,7 @@ def S(name, root, W, harness, nofr=False, **kw):
     kw.setdefault('stubs', POOL_STUBS); kw.setdefault('expected_wrap', (('absVal__word', 'type conversion'), ('absVal__lword', 'type conversion'), ('absVal__word', 'unary minus'), ('absVal__lword', 'unary minus'), ('additionAssign', '(t_lword)return_value_gcd__ulong_ulong'),
         # operator%: `(word)(d.num > 0 ? w : -w)` negates an unsigned value and converts it back: intended modular arithmetic
         ('FastRational__op_mod', 'type conversion in (t_uword)-'), ('FastRational__op_mod', 'type conversion in (t_word)'), ('FastRational__op_mod', 'unary minus')))
-    kw.setdefault('timeout', 1500 if W >= 5 else 600)
+    kw.setdefault('timeout', 3000 if W >= 5 else 1500)
     return Job('%s.S%d' % (name, W), TU, root, tier='S', width=W, header='contracts/C15/fr_S.h', harness=harness, enforce=False,
                defines=('OSMT_GMP_EXACT', 'OSMT_CHECK_WF_ASSERTS') + (('OSMT_NO_FR',) if nofr else ()), unwindset=S_UNWIND(W), min_obligations=5,
                bounded_note='exhaustive over all well-formed operands at word width %d (big operands up to 2^%d)' % (W, W + 2), **kw)
